@@ -1072,6 +1072,9 @@ impl Server {
                 // CopyInResponse: copy is starting from client to server.
                 'G' => {
                     self.in_copy_mode = true;
+                    // The server now waits for the client's copy data: nothing more to read,
+                    // even if an earlier statement of the same query returned rows.
+                    self.data_available = false;
                     break;
                 }
 
